@@ -96,7 +96,12 @@ theorem InvX.null_ptr {ex : Var → Prop} {s : St} {v : Var} (hi : InvX (fun w =
         · exact absurd hw1 hwv
 
 /-- `modeX = modeX_; modeX->addXRef(this)` for a handle that holds NULL -/
-theorem InvX.attach {ex : Var → Prop} {s : St} {v : Var} {o : Nat} (hi : InvX ex s) (hv : ¬ ex v)
+theorem attach_core {ex : Var → Prop} {s : St} {v : Var} {o : Nat} (hi : Inv0 ex s)
+    (hrn : ∀ x, x ≠ o → s.alive x = true → s.kind x ≠ .buf → s.useRefs x = true →
+      (s.ring x ≠ [] ∨ ∃ w, ex w ∧ s.ptr w = some x))
+    (hbn : ∀ b, s.alive b = true → s.kind b = .buf →
+      (s.kids b ≠ [] ∨ ∃ p, s.alive p = true ∧ s.inner p = some b))
+    (hv : ¬ ex v)
     (hp : s.ptr v = none) (hl : s.vlive v = true) (hoa : s.alive o = true) (hok : s.kind o = v.kind.obj) :
     InvX ex ((s.setPtr v (some o)).setRing o (Ring.add (s.ring o) v)) := by
   have hn := hi.ring_nodup o
@@ -109,7 +114,7 @@ theorem InvX.attach {ex : Var → Prop} {s : St} {v : Var} {o : Nat} (hi : InvX 
   have hring : ∀ x, ((s.setPtr v (some o)).setRing o (Ring.add (s.ring o) v)).ring x
       = if x = o then Ring.add (s.ring o) v else s.ring x := fun x => rfl
   refine ⟨⟨⟨hi.notrap, hi.alive_lt, hi.dtors_eq, ?_, ?_, ?_, ?_, ?_, hi.cur_lt,
-    hi.kids_ok, hi.kids_nodup, hi.ch_ok, hi.ch_nodup, hi.inner_ok, hi.inner_inj⟩, hi.ch_par, hi.mem_par⟩, ?_, hi.buf_ne⟩
+    hi.kids_ok, hi.kids_nodup, hi.ch_ok, hi.ch_nodup, hi.inner_ok, hi.inner_inj⟩, hi.ch_par, hi.mem_par⟩, ?_, hbn⟩
   · intro w x hw hex
     rw [hptr] at hw
     rw [hring]
@@ -161,11 +166,17 @@ theorem InvX.attach {ex : Var → Prop} {s : St} {v : Var} {o : Nat} (hi : InvX 
     rw [hring]
     split
     · exact Or.inl (Ring.add_ne_nil _ _)
-    · rcases hi.ring_ne x hxa hxk hxu with h | ⟨w, hw1, hw2⟩
+    · rename_i hxo
+      rcases hrn x hxo hxa hxk hxu with h | ⟨w, hw1, hw2⟩
       · exact Or.inl h
       · have hwv : w ≠ v := fun e => hv (e ▸ hw1)
         refine Or.inr ⟨w, hw1, ?_⟩
         rw [hptr]; simp only [hwv, if_false]; exact hw2
+
+theorem InvX.attach {ex : Var → Prop} {s : St} {v : Var} {o : Nat} (hi : InvX ex s) (hv : ¬ ex v)
+    (hp : s.ptr v = none) (hl : s.vlive v = true) (hoa : s.alive o = true) (hok : s.kind o = v.kind.obj) :
+    InvX ex ((s.setPtr v (some o)).setRing o (Ring.add (s.ring o) v)) :=
+  attach_core hi.toInv0 (fun x _ => hi.ring_ne x) hi.buf_ne hv hp hl hoa hok
 
 /-- the storage of a handle that holds NULL goes away -/
 theorem InvX.kill_var {ex : Var → Prop} {s : St} {v : Var} (hi : InvX ex s) (hp : s.ptr v = none) (b : Bool)
